@@ -43,6 +43,9 @@ func (sc c06Scenario) class() string {
 		}
 		return fmt.Sprintf("destroy/%s/%s/kill=%s/hooks=%s", sc.State, strings.Join(fl, "+"), sc.Kill, sc.Hooks)
 	}
+	if sc.Kind == "second-destroy" {
+		return fmt.Sprintf("second-destroy/%s/kill=%s", sc.State, sc.Kill)
+	}
 	return fmt.Sprintf("create-fail/%s/hooks=%s", sc.Stage, sc.Hooks)
 }
 
@@ -87,6 +90,10 @@ func c06Scenarios(c *vlib.Ctx) []c06Scenario {
 	out = append(out, c06Scenario{Kind: "destroy", State: "CONFIGURED", Kill: "refused-first", Hooks: "none", NTasks: 3})
 	out = append(out, c06Scenario{Kind: "destroy", State: "RUNNING", Force: true, Kill: "refused-first", Hooks: "none", NTasks: 4})
 	out = append(out, c06Scenario{Kind: "create-fail", Stage: "configure-error", Hooks: "none", NTasks: 3, Kill: "refused-first"})
+	// two environments: the KILLs of the first destroy are never answered (its request stays pending); the
+	// destroy of the second environment, and the clean-up of a creation that fails, must still get through
+	out = append(out, c06Scenario{Kind: "second-destroy", State: "CONFIGURED", Kill: "first-unanswered", Hooks: "none", NTasks: 2})
+	out = append(out, c06Scenario{Kind: "second-destroy", State: "RUNNING", Force: true, Kill: "first-unanswered", Hooks: "none", NTasks: 3})
 	if c.Tier == "thorough" {
 		for _, st := range states {
 			for _, k := range []string{"ignore", "refused"} {
@@ -131,6 +138,10 @@ func c06Run(c *vlib.Ctx, idx int, sc c06Scenario) {
 	id := c.Case(map[string]interface{}{"index": idx, "scenario": sc})
 	if idx%11 == 2 {
 		c.Sample(sc)
+	}
+	if sc.Kind == "second-destroy" {
+		c06SecondDestroy(c, idx, id, sc)
+		return
 	}
 	cls := sc.class()
 	c.Nontrivial(vlib.Hash("c06", cls))
@@ -576,5 +587,154 @@ func c06Run(c *vlib.Ctx, idx int, sc c06Scenario) {
 			obs.Goroutines = truncate(dump, 4000)
 			fail("CALL-NOT-CANCELLED", fmt.Sprintf("%d hook call goroutine(s) still blocked in Call.Start after the environment is gone (never awaited, never cancelled)", n))
 		}
+	}
+}
+
+// c06SecondDestroy: environment A is destroyed while its executors ignore every KILL (the request waits for
+// acknowledgements that never come - recorded, not judged); environment B is destroyed meanwhile. Every task of
+// B must be asked to terminate and B must be gone.
+func c06SecondDestroy(c *vlib.Ctx, idx int, id int64, sc c06Scenario) {
+	cls := sc.class()
+	c.Nontrivial(vlib.Hash("c06", cls))
+	obs := &c06Obs{Scenario: sc, Index: idx}
+	wfName := fmt.Sprintf("c06w%d", idx)
+	wf := coresim.WorkflowSpec{Name: wfName, Hosts: []string{"host1"}, Defaults: map[string]string{"deploy_timeout": "60s"}}
+	for i := 0; i < sc.NTasks; i++ {
+		wf.Tasks = append(wf.Tasks, coresim.TaskSpec{Name: fmt.Sprintf("t%d", i), Host: fmt.Sprintf("host%d", 1+i%2), Critical: i == 0, Mode: c02Modes[i%3]})
+	}
+	s, err := coresim.Start(coresim.Options{Agents: stdAgents(3), Detectors: stdDetectors(3), Files: wf.Files()})
+	if err != nil {
+		c.Inconclusive("coresim start: " + truncate(err.Error(), 12000))
+		return
+	}
+	defer func() {
+		finishSim(c, s, id, obs)
+		s.Close()
+	}()
+	fail := func(rule, what string) {
+		for _, t := range s.Master.Tasks() {
+			obs.Tasks = append(obs.Tasks, fmt.Sprintf("%s %s env=%s mesos=%s kills=%d", t.RolePath, t.ID, t.EnvID, t.Mesos, t.KillAsked))
+		}
+		c.Violation(rule, cls, fmt.Sprintf("%s [scenario %d: %+v]", what, idx, sc), id, obs)
+	}
+	s.Master.OnLaunch = func(t *simmesos.LaunchedTask) simmesos.LaunchPlan {
+		return simmesos.LaunchPlan{Kind: "running", Delay: 30 * time.Millisecond}
+	}
+	s.Master.OnCommand = func(t *simmesos.LaunchedTask, cmd *simmesos.CommandSeen) simmesos.Reply {
+		return simmesos.Reply{Kind: "ok"}
+	}
+	var envA atomic.Value
+	envA.Store("")
+	s.Master.OnKill = func(t *simmesos.LaunchedTask) string {
+		if t.EnvID == envA.Load().(string) {
+			return "ignore"
+		}
+		return "killed"
+	}
+	api := 90 * time.Second
+	create := func(hosts string) (string, error) {
+		ctx, cancel := coresim.Ctx(api)
+		defer cancel()
+		r, err := s.Client.NewEnvironment(ctx, &pb.NewEnvironmentRequest{WorkflowTemplate: wfName, Vars: map[string]string{"hosts": hosts}})
+		if err != nil {
+			return "", err
+		}
+		return r.GetEnvironment().GetId(), nil
+	}
+	a, err := create(`["host1"]`)
+	if err != nil {
+		c.Inconclusive(fmt.Sprintf("scenario %d: fault-free creation failed: %s", idx, truncate(grpcMsg(err), 300)))
+		return
+	}
+	envA.Store(a)
+	b, err := create(`["host2"]`)
+	if err != nil {
+		c.Inconclusive(fmt.Sprintf("scenario %d: fault-free creation of the second environment failed: %s", idx, truncate(grpcMsg(err), 300)))
+		return
+	}
+	if sc.State == "RUNNING" {
+		for _, e := range []string{a, b} {
+			ctx, cancel := coresim.Ctx(api)
+			_, err := s.Client.ControlEnvironment(ctx, &pb.ControlEnvironmentRequest{Id: e, Type: pb.ControlEnvironmentRequest_START_ACTIVITY})
+			cancel()
+			if err != nil {
+				c.Inconclusive("fault-free START failed: " + grpcMsg(err))
+				return
+			}
+		}
+	}
+	tasksOf := func(env string) (out []simmesos.LaunchedTask) {
+		for _, t := range s.Master.Tasks() {
+			if t.EnvID == env {
+				out = append(out, t)
+			}
+		}
+		return
+	}
+	// destroy A: pending for as long as its executors ignore the KILLs
+	doneA := make(chan error, 1)
+	go func() {
+		ctx, cancel := coresim.Ctx(170 * time.Second)
+		defer cancel()
+		_, err := s.Client.DestroyEnvironment(ctx, &pb.DestroyEnvironmentRequest{Id: a, Force: sc.Force})
+		doneA <- err
+	}()
+	asked := func(env string) (n, of int) {
+		for _, t := range tasksOf(env) {
+			of++
+			if t.KillAsked > 0 {
+				n++
+			}
+		}
+		return
+	}
+	for dl := time.Now().Add(60 * time.Second); time.Now().Before(dl); time.Sleep(20 * time.Millisecond) {
+		if n, of := asked(a); of > 0 && n == of {
+			break
+		}
+		if len(doneA) > 0 {
+			break
+		}
+	}
+	if n, of := asked(a); n != of || of == 0 {
+		c.Inconclusive(fmt.Sprintf("scenario %d: the first destroy did not get as far as its KILLs (%d of %d)", idx, n, of))
+		return
+	}
+	waitQuiet(s, 300*time.Millisecond, 5*time.Second)
+	c.Count("second_destroys_while_first_kill_unanswered", 1)
+	ctx, cancel := coresim.Ctx(60 * time.Second)
+	t0 := time.Now()
+	_, derr := s.Client.DestroyEnvironment(ctx, &pb.DestroyEnvironmentRequest{Id: b, Force: sc.Force})
+	cancel()
+	obs.Steps = append(obs.Steps, fmt.Sprintf("DestroyEnvironment(second) err=%q in %s", truncate(grpcMsg(derr), 200), time.Since(t0).Round(time.Millisecond)))
+	c.Count("destroys_driven", 1)
+	waitQuiet(s, 300*time.Millisecond, 5*time.Second)
+	if n, of := asked(b); n != of {
+		obs.Goroutines = s.DumpGoroutines()
+		fail("NOT-KILLED", fmt.Sprintf("destroy of the second environment (result %q): %d of its %d tasks were never asked to terminate while the KILLs of an earlier destroy are unanswered", grpcMsg(derr), of-n, of))
+	} else if derr != nil {
+		if strings.Contains(grpcMsg(derr), "DeadlineExceeded") {
+			obs.Goroutines = s.DumpGoroutines()
+			fail("HANG", "destroy of the second environment did not return within 60 s although its tasks answered the KILLs")
+		} else {
+			fail("DESTROY-ERROR", "destroy of the second environment failed although release and kill were possible: "+grpcMsg(derr))
+		}
+	} else if ids, lerr := listEnvIDs(s); lerr == nil && ids[b] != "" {
+		fail("STILL-LISTED", fmt.Sprintf("environment %s still listed in state %s after its destroy returned OK", b, ids[b]))
+	} else {
+		c.Count("destroys_ok", 1)
+	}
+	// let the first destroy finish: its tasks are reported killed now
+	for _, t := range tasksOf(a) {
+		s.Master.TaskStatus(t.ID, "TASK_KILLED", "killed at last")
+	}
+	select {
+	case err := <-doneA:
+		obs.Steps = append(obs.Steps, fmt.Sprintf("DestroyEnvironment(first) err=%q", truncate(grpcMsg(err), 200)))
+		if err == nil {
+			c.Count("first_destroys_completed_after_late_acknowledgement", 1)
+		}
+	case <-time.After(60 * time.Second):
+		c.Count("first_destroys_still_pending", 1)
 	}
 }
